@@ -337,7 +337,7 @@ func TestVerif_C03_Envelopes(t *testing.T) {
 // subscribers or the state, the honest sentinel that follows does.
 func TestVerif_C03_Store(t *testing.T) {
 	acct := vacct.Get("C03")
-	vacct.RapidCheck(t, vacct.N(6, 1200), func(rt *rapid.T) {
+	vacct.RapidCheck(t, vacct.N(16, 1200), func(rt *rapid.T) {
 		kind := rapid.SampledFrom([]string{"account", "multimember"}).Draw(rt, "kind")
 		w := vNewReplica(t, "W", nil)
 		defer w.close()
@@ -412,11 +412,42 @@ func TestVerif_C03_Store(t *testing.T) {
 		pick := fs[rapid.IntRange(0, len(fs)-1).Draw(rt, "forgery")]
 		payload, _ := proto.Marshal(pick.msg)
 		env := c03Seal(g, pick.et, payload, pick.sig(payload))
-		e, err := m.AddOperation(vCtx, operation.NewOperation(nil, "ADD", env), nil)
-		if err != nil {
-			rt.Fatalf("harness: a member cannot append the forged entry: %v", err)
+		// the forged entry is either appended on top of the victim's log, or written by a holder of the group secret on
+		// a replica that has merged nothing of the victim's history (a concurrent branch with low Lamport times) and
+		// then replicated to the victim
+		arrival := rapid.SampledFrom([]string{"appended", "concurrent-branch"}).Draw(rt, "arrival")
+		var forgedID []byte
+		if arrival == "appended" {
+			e, err := m.AddOperation(vCtx, operation.NewOperation(nil, "ADD", env), nil)
+			if err != nil {
+				rt.Fatalf("harness: a member cannot append the forged entry: %v", err)
+			}
+			forgedID = e.GetHash().Bytes()
+		} else {
+			fr := vNewReplica(t, "F", w)
+			defer fr.close()
+			fgc := fr.open(t, g)
+			defer fgc.Close()
+			e, err := fgc.MetadataStore().AddOperation(vCtx, operation.NewOperation(nil, "ADD", env), nil)
+			if err != nil {
+				rt.Fatalf("harness: a member cannot write the forged entry on its own replica: %v", err)
+			}
+			if e.GetClock().GetTime() > 1 {
+				rt.Fatalf("harness: the forger's branch is not concurrent (clock %d)", e.GetClock().GetTime())
+			}
+			n0 := m.OpLog().Len()
+			if err := vDeliverMeta(gc, fgc, e); err != nil {
+				rt.Fatalf("harness: %v", err)
+			}
+			if m.OpLog().Len() != n0+1 {
+				rt.Fatalf("harness: the victim did not merge the forger's branch (%d -> %d entries)", n0, m.OpLog().Len())
+			}
+			forgedID = e.GetHash().Bytes()
+			if mid := vDumpGroupState(gc); mid != before {
+				acct.Violation("store/forged-event-applied/concurrent-branch", "TestVerif_C03_Store", map[string]any{"group": kind, "forgery": pick.label, "msg": c04Diff(before, mid)})
+				rt.Fatalf("C03 forged-event-applied/concurrent-branch: state changed by a forged entry (%s) replicated from a branch concurrent with the victim's history:\n%s", pick.label, c04Diff(before, mid))
+			}
 		}
-		forgedID := e.GetHash().Bytes()
 		// dropped means: state unchanged, also while the forged entry is the newest one of the log (a later genuine
 		// entry re-indexes everything and could repair a state the forged entry had damaged)
 		if mid := vDumpGroupState(gc); mid != before {
@@ -513,6 +544,8 @@ func TestVerif_C03_Store(t *testing.T) {
 				fail("forged-event-applied/replica", "replica state shows the forged entry (%s):\n%s", pick.label, c04Diff(before, d))
 			}
 		}
-		acct.Case(true, kind+"|"+pick.label, func() any { return map[string]any{"kind": "store-forgery", "group": kind, "forgery": pick.label} }, "store", "store/"+kind)
+		acct.Case(true, kind+"|"+pick.label+"|"+arrival, func() any {
+			return map[string]any{"kind": "store-forgery", "group": kind, "forgery": pick.label, "arrival": arrival}
+		}, "store", "store/"+kind, "store/forgery-"+arrival)
 	})
 }
